@@ -11,6 +11,7 @@ import Kust.Walk
 import Kust.GenMap
 import Kust.Sha256
 import Kust.Labels
+import Kust.Image
 import Kust.Gen.FieldSpecs
 import Kust.Gen.Lists
 open Lean Kust
@@ -199,6 +200,17 @@ def runLabels (op : String) (a : Json) : Except String Json := do
       ("cur", match d with | some d => dictToJson d | none => Json.null)]).toArray)]
   | _ => throw s!"unknown labels op {op}"
 
+def runImage (op : String) (a : Json) : Except String Json := do
+  let g (k : String) : String := (a.getObjValD k).getStr?.toOption.getD ""
+  match op with
+  | "update" =>
+    let e : Image.Entry := { name := g "name", newName := g "newName", newTag := g "newTag", digest := g "digest", tagSuffix := g "tagSuffix" }
+    return Json.mkObj [("ok", Json.str (Image.update e (g "image")))]
+  | "split" =>
+    let (n, t, d) := Image.split (g "image")
+    return Json.mkObj [("ok", Json.arr #[Json.str n, Json.str t, Json.str d])]
+  | _ => throw s!"unknown image op {op}"
+
 def dispatch (comp : String) (args : Json) : Except String Json :=
   match comp.splitOn "." with
   | ["fns", op] => runFns op args
@@ -207,6 +219,7 @@ def dispatch (comp : String) (args : Json) : Except String Json :=
   | ["walk", op] => runWalk op args
   | ["gen", op] => runGen op args
   | ["labels", op] => runLabels op args
+  | ["image", op] => runImage op args
   | _ => throw s!"unknown component {comp}"
 
 partial def loop (hin hout : IO.FS.Stream) : IO Unit := do
